@@ -973,6 +973,9 @@ func runIn(sc *Scenario, res *core.Result, verbose bool) {
 		slow := []time.Duration{0, 0, time.Millisecond, 50 * time.Millisecond}[sc.RunSeed%4]
 		srv.DecorateReader = (&common.Decorator{K: k, Slow: slow}).Decorate
 		srv.MsgAcceptFunc = (&common.YieldAccept{K: k, Slow: slow}).Accept
+		if sc.RunSeed%3 == 0 {
+			srv.DecorateWriter = (&common.WDecorator{K: k}).Decorate
+		}
 	}
 	// ListenAndServe needs the socket seam; for udp it insists on a UDP socket
 	x.viaListen = sc.Listen && common.ListenSeam() && (sc.Transport != "udp" || (sc.UDPSock && common.UDPSeam))
